@@ -68,6 +68,7 @@ class Node(Task):
     lst: Param[List[Config]] = []
     dct: Param[Dict[str, Config]] = {}
     nested: Param[Optional[Holder]] = None
+    metaup: Meta[Optional[Config]] = None
     fail: Meta[bool] = False
     gate: Meta[Optional[str]] = None
     sleep: Meta[float] = 0.0
@@ -85,6 +86,7 @@ class NodeOut(Task):
     lst: Param[List[Config]] = []
     dct: Param[Dict[str, Config]] = {}
     nested: Param[Optional[Holder]] = None
+    metaup: Meta[Optional[Config]] = None
     fail: Meta[bool] = False
     gate: Meta[Optional[str]] = None
     sleep: Meta[float] = 0.0
@@ -92,6 +94,28 @@ class NodeOut(Task):
 
     def task_outputs(self, dep):
         return dep(Out(label=self.name))
+
+    def execute(self):
+        _body(self)
+
+
+class NodePass(Task):
+    """A task that hands the configuration it received on to its own consumers: what submit() returns is `direct`
+    itself, now marked as an output of this task"""
+
+    name: Param[str]
+    direct: Param[Config]
+    lst: Param[List[Config]] = []
+    dct: Param[Dict[str, Config]] = {}
+    nested: Param[Optional[Holder]] = None
+    metaup: Meta[Optional[Config]] = None
+    fail: Meta[bool] = False
+    gate: Meta[Optional[str]] = None
+    sleep: Meta[float] = 0.0
+    weight: Meta[int] = 0
+
+    def task_outputs(self, dep):
+        return dep(self.direct)
 
     def execute(self):
         _body(self)
